@@ -33,6 +33,12 @@ def check(run):
     R.rule('C13.exit', '__exit__ closes the session whenever one exists; session.close -> _close_socket', 3)
     R.rule('C13.closes', '_close_socket closes the descriptor on every path on which a socket is present, and takes the '
                          'write lock only by `with`', 3)
+    R.rule('C13.owned', 'the socket stays reachable for cleanup: self._sock is nulled only after close; a socket is '
+                        'closed on every exceptional exit of the function holding it before publication', 6)
+    from . import C09
+    with R.as_rule('C13.owned'):
+        C09.socknull(R)
+        C09.release(R)
     yields(R)
     selector(R)
     exit_(R)
@@ -50,7 +56,9 @@ def yields(R):
     pub = [n for n in g.live_nodes() if n.kind == 'stmt' and isinstance(n.ast, ast.Assign) and U(n.ast.targets[0]) == 'self._sock'
            and U(n.ast.value) != 'None']
     need(len(pub) == 1, 'run(): publication of the socket not found')
-    cs = [n for (n, _) in calls_to(R, g, S + '._close_socket')]
+    cs = [n for (n, c_) in calls_to(R, g, S + '._close_socket') if U(c_.func) == 'self._close_socket']
+    # (cleanup routed through websocket.on_disconnect() / websocket.session acts on the WebSocket's *current* session,
+    #  which is another one after a reconnect - only calls on self count)
     # yields at which the socket may be open: reachable from publication avoiding _close_socket calls
     open_region = g.reachable(normal_succs(pub[0]), avoid=set(cs))
     ys = [y for y in g.yields() if y in open_region]
